@@ -253,8 +253,28 @@ def register_dataclass_type_with_jax_tree_util(data_class):
         constructable from keyword arguments corresponding to the members exposed
         in instance.__dict__.
     """
-    flatten = lambda d: jax.util.unzip2(sorted(d.__dict__.items()))[::-1]
-    unflatten = lambda keys, values: data_class(**dict(zip(keys, values)))
+
+    def _is_static(value):
+        # Python ints (dimensions), strings and plain callables are not JAX types: keep them as auxiliary data.
+        return isinstance(value, (bool, int, str)) or (
+            callable(value) and not dataclasses.is_dataclass(value)
+        )
+
+    def flatten(d):
+        items = sorted(d.__dict__.items())
+        static = tuple((k, v) for k, v in items if _is_static(v))
+        dynamic = tuple((k, v) for k, v in items if not _is_static(v))
+        return tuple(v for _, v in dynamic), (tuple(k for k, _ in dynamic), static)
+
+    def unflatten(aux, values):
+        # Restore the instance attributes directly: running the constructor again would re-derive
+        # fields from already derived ones and reject attributes that are not dataclass fields.
+        keys, static = aux
+        obj = object.__new__(data_class)
+        obj.__dict__.update(zip(keys, values))
+        obj.__dict__.update(static)
+        return obj
+
     try:
         jax.tree_util.register_pytree_node(
             nodetype=data_class, flatten_func=flatten, unflatten_func=unflatten
